@@ -175,6 +175,21 @@ def _int_binop(st, op, a, b):
                 bits = _bits_of(st, other)
                 return norm(SBits([x if (neg >> j) & 1 else False for j, x in enumerate(bits)]))
             raise EngineUnsupported("| or ^ with a negative constant")
+        if op is ast.BitAnd:
+            for x, c in ((a, cb), (b, ca)):
+                if c is not None and c >= 0 and (c & (c + 1)) == 0 and isinstance(x, SInt):
+                    try:
+                        _bits_of(st, x)
+                    except EngineUnsupported:
+                        return SInt(x.t % (c + 1))  # Python: x & (2^k-1) == x mod 2^k for every int x
+            for x, c, first in ((a, cb, True), (b, ca, False)):
+                if c is not None and c >= 0 and isinstance(x, SInt):
+                    try:
+                        _bits_of(st, x)
+                    except EngineUnsupported:
+                        # x & c == (x mod 2^k) & c with k = bit_length(c), for every int x
+                        y = SInt(x.t % (1 << c.bit_length()))
+                        return _int_binop(st, op, y, c)
         ba, bb = _bits_of(st, a), _bits_of(st, b)
         n = max(len(ba), len(bb))
         ba += [False] * (n - len(ba))
@@ -186,7 +201,10 @@ def _int_binop(st, op, a, b):
             if cb < 0:
                 return Cases([(True, RaiseExc(ValueError, "negative shift count"))])
             if isinstance(a, SInt):
-                return SInt(a.t * (1 << cb))
+                try:
+                    return norm(SBits([False] * cb + _bits_of(st, a)))
+                except EngineUnsupported:
+                    return SInt(a.t * (1 << cb))
             return norm(SBits([False] * cb + _bits_of(st, a)))
         raise EngineUnsupported("left shift by a symbolic amount")
     if op is ast.RShift:
@@ -399,6 +417,29 @@ def _bytes_eq_lockstep(st, a, b):
 def _int_eq_bits(st, x, y):
     r = int_eq(st, x, y)
     return r
+
+
+def bytes_identical(st, a, b):
+    """Sufficient condition (for postconditions, never for branch conditions): the two values
+    are the same slices / the same items, segment by segment."""
+    a, b = as_sbytes(a), as_sbytes(b)
+    if len(a.segs) != len(b.segs):
+        ia, ib = bytes_items(st, a), bytes_items(st, b)
+        if ia is not None and ib is not None and len(ia) == len(ib):
+            return zand(*[int_eq(st, x, y) for x, y in zip(ia, ib)])
+        return False
+    conds = []
+    for x, y in zip(a.segs, b.segs):
+        if isinstance(x, View) and isinstance(y, View):
+            if x.arr is not y.arr:
+                return False
+            conds += [x.lo == y.lo, x.hi == y.hi]
+        else:
+            nx, ny = determined_int(st.pc, seg_len(x)), determined_int(st.pc, seg_len(y))
+            if nx is None or ny is None or nx != ny:
+                return False
+            conds += [int_eq(st, seg_item(st, x, i), seg_item(st, y, i)) for i in range(nx)]
+    return zand(*conds)
 
 
 def _seg_same(x, y):
